@@ -568,13 +568,19 @@ func acroFormDefaults(c pdf.Cursor) (da string, q pdf.TextAlign) {
 // merged field/widget reached from a page's /Annots, where the tree's top-down
 // context is unavailable. It computes the same values as the top-down walk, so
 // both directions produce identical flattened fields.
+// maxFieldAncestors bounds the number of ancestors inheritedFromChain reads
+// for one widget.  Field hierarchies are shallow; without a bound, n widgets
+// below a chain of n ancestors cost n² object reads.  (The top-down walk of
+// the field tree is bounded by the depth cap of pdf.Decode in the same way.)
+const maxFieldAncestors = 64
+
 func inheritedFromChain(c pdf.Cursor, dict pdf.Dict) inherited {
 	var chain []pdf.Dict
 	visited := map[pdf.Reference]bool{}
 	cur := dict
 	for {
 		ref, ok := cur["Parent"].(pdf.Reference)
-		if !ok || visited[ref] {
+		if !ok || visited[ref] || len(chain) >= maxFieldAncestors {
 			break
 		}
 		visited[ref] = true
